@@ -246,6 +246,13 @@ class FakeODE:
         self.t, self.lvl, self.e = None, None, None
 
     def set_state(self, t, state):
+        if getattr(self, "expect_fresh", False):
+            # first thing MCIntegrator.set_state must have done: a NEW, empty
+            # collapse list, already registered as CollapseFeedback
+            reg = self.fake_system.registered
+            self.fresh_seen = (reg is not None and len(reg) == 0
+                               and reg is not self.previous_list)
+            self.expect_fresh = False
         self.t = float(t)
         self.lvl, self.e = _dec(state)
 
@@ -300,8 +307,11 @@ class FakeSystem:
         self.c_ops = [FakeCop(D, ch) for ch in prob["chans"]]
         self.n_ops = [FakeNop(ch) for ch in prob["chans"]]
 
+    registered = None
+
     def _register_feedback(self, key, val):
-        pass
+        if key == "CollapseFeedback":
+            self.registered = val
 
 
 class ScriptGen:
@@ -381,12 +391,16 @@ def k2_impl(case):
     D = len(prob["rate"])
     opts = {"norm_steps": 5, "norm_t_tol": 1e9, "norm_tol": 1e-4,
             "mc_corr_eps": 2.0 ** (-EPS_EXP)}
-    integ = MCIntegrator(FakeODE(prob), FakeSystem(prob), opts)
+    ode, fsys = FakeODE(prob), FakeSystem(prob)
+    ode.fake_system = fsys
+    integ = MCIntegrator(ode, fsys, opts)
     out = []
     for h, st in zip(case["hist"], case["streams"]):
         t0, l0, ts, nj = h[:4]
         fl = h[4] if len(h) > 4 else 0
         g = ScriptGen(st, 1 << 52)
+        ode.expect_fresh, ode.fresh_seen = True, None
+        ode.previous_list = getattr(integ, "collapses", None)
         try:
             integ.set_state(t0 / TU, _enc(D, l0, 0), g, no_jump=nj,
                             jump_prob_floor=fl / float(1 << 20))
@@ -398,6 +412,10 @@ def k2_impl(case):
                     raise AssertionError("non dyadic time")
         except (RuntimeError, IndexError) as e:
             states = None
+        if ode.fresh_seen is not True or fsys.registered is not integ.collapses:
+            raise AssertionError(
+                "when the wrapped integrator's set_state ran, the registered CollapseFeedback "
+                "list was not the trajectory's new empty collapse list")
         out.append((states, [(int(round(t * TU)), int(w)) for t, w in integ.collapses],
                     list(g.log)))
     return out
@@ -1200,6 +1218,39 @@ def diff_fp(a, b):
         if a.get(k) != b.get(k):
             return k
     return None
+
+
+def fixed_family():
+    """seed-independent problems that always run completely, before the
+    wall-time-bounded random part: every feedback mechanism / args-dependent
+    coefficient x every ODE (SDE) method, serial ensembles with collapses"""
+    fam = []
+    mc_fb = [[["c", "collapse"]], [["H", "expect"]], [["c", "expect"]], []]
+    for fb in mc_fb:
+        for method in ["adams", "bdf", "lsoda", "dop853", "vern7", "vern9"]:
+            fam.append({"kind": "mc", "N": 3, "w": 1.0, "g": 0.25, "state": "top", "eops": 2,
+                        "seed": 20260101, "ntraj": 4, "cops": [0, 1], "gam": [1.0, 0.75, 0.5],
+                        "method": method, "improved": False,
+                        "tlist": [0.0, 0.625, 1.25, 1.875, 2.5],
+                        "garg": None if fb else 0.5, "fb": fb, "bitgen": None})
+    sde_fb = {"sse": [[["sc", "wiener"]], [["H", "state"]], [["H", "expect"]], []],
+              "sme": [[["sc", "wiener"]], [["c", "wiener"]], [["H", "state"]], [["c", "expect"]], []]}
+    sde_m = {"sse": ["platen", "euler", "explicit1.5"],
+             "sme": ["platen", "euler", "milstein", "taylor1.5", "pred_corr"]}
+    for kind in ("sse", "sme"):
+        for fb in sde_fb[kind]:
+            for method in sde_m[kind]:
+                fam.append({"kind": kind, "N": 2, "w": 1.0, "g": 0.25, "state": "sup", "eops": 2,
+                            "seed": 20260102, "ntraj": 3, "cops": [0], "gam": [0.75, 0.5, 0.5],
+                            "het": False, "method": method, "dtexp": 6,
+                            "tlist": [i * 4 * 2.0 ** -6 for i in range(4)], "meas": "end",
+                            "extra_c": any(w == "c" for w, _ in fb),
+                            "garg": None if fb else 0.5, "fb": fb, "bitgen": None})
+    fam.append({"kind": "nm", "N": 2, "w": 1.0, "g": 0.25, "state": "top", "eops": 1,
+                "seed": 20260103, "ntraj": 4, "cops": [0, 2], "gam": [0.75, 0.75, 0.75],
+                "method": "adams", "improved": False, "tlist": [0.0, 0.625, 1.25, 1.875, 2.5],
+                "garg": 0.5, "fb": [], "bitgen": None})
+    return fam
 
 
 class Problem:
@@ -2080,6 +2131,13 @@ def run(ctx):
     t0 = time.time()
     for spec in corpus["oracle"]:
         orc.one_problem(spec)
+    nfix = 0
+    for spec in fixed_family():           # always complete, not under the time budget
+        orc.one_problem(spec, ["rerun"] + (["args"] if spec["garg"] is not None else []))
+        nfix += 1
+    dist["oracle/fixed-family"] = nfix
+    ctx.log("oracle: fixed family of %d problems done (%.0f s)" % (nfix, time.time() - t0))
+    t0 = time.time()
     kinds = ["mc", "sse", "sme", "nm", "mc", "sme"]
     nprob = 0
     while time.time() - t0 < budget and nprob < (100 if ctx.quick else 2500):
